@@ -587,32 +587,47 @@ theorem clean_opFsClose {s : St} (h : CleanX Z s) (f : Nat) : CleanX Z (opFsClos
     · exact (h.harmless (by simp [Prim.harmless])).ret _
   · exact h.bad
 
-theorem clean_opFsCopyfile {s : St} (h : CleanX Z s) (inj : Inj) (ok : Bool) : CleanX Z (opFsCopyfile s inj ok) := by
+theorem clean_opFsCopyfile {s : St} (h : CleanX Z s) (inj : Inj) (v : String) : CleanX Z (opFsCopyfile s inj v) := by
   unfold opFsCopyfile
   split
-  · exact (h.tick _ _).ret _
-  · simp only
-    split
+  · exact h.bad
+  · split
     · exact (h.tick _ _).ret _
-    · have h0 := h.tick inj "open"
-      have h1 := h0.create (site := .fsOpen) (kind := .file) (temp_free h0 0)
+    · dsimp only
       split
-      · exact (((h1.tick _ _).close (o := .temp 0) (g := false) rfl rfl).weaken (by
-          intro o ho; rcases ho with ⟨hx | hx, hne⟩
-          · exact hx.elim
-          · exact absurd hx hne)).ret _
-      · have h2 := h1.tick inj "open"
-        have hf1 : ¬ Own ((s.tick inj "open").run [.create .fsOpen .file (.temp 0)] |>.tick inj "open").l.1 (.temp 1) :=
-          h2.absent (fun hc => hc) (by simp)
-        have h3 := h2.create (site := .fsOpen) (kind := .file) hf1
-        have h4 := (h3.close (o := .temp 0) (g := false) rfl rfl).close (o := .temp 1) (g := false) rfl rfl
-        refine (CleanX.weaken (X := fun x => ((((False ∨ x = Owner.temp 0) ∨ x = Owner.temp 1) ∧ x ≠ Owner.temp 0) ∧ x ≠ Owner.temp 1)) ?_ ?_).ret _
-        · rw [run_cons, run_cons]; exact h4
-        · intro o ho
-          rcases ho with ⟨⟨(hx | hx) | hx, hne0⟩, hne1⟩
-          · exact hx.elim
-          · exact absurd hx hne0
-          · exact absurd hx hne1
+      · exact (h.tick _ _).ret _
+      · have h0 := h.tick inj "open"
+        have h1 := h0.create (site := .fsOpen) (kind := .file) (temp_free h0 0)
+        have hclose : CleanX Z ((((s.tick inj "open").run [.create .fsOpen .file (.temp 0)]).tick inj "open").run
+            [.closeOwner (.temp 0) false]) :=
+          ((h1.tick _ _).close (o := .temp 0) (g := false) rfl rfl).weaken (by
+            intro o ho; rcases ho with ⟨hx | hx, hne⟩
+            · exact hx.elim
+            · exact absurd hx hne)
+        split
+        · exact hclose.ret _
+        · split
+          · exact hclose.ret _
+          · have h2 := h1.tick inj "open"
+            have hf1 : ¬ Own ((s.tick inj "open").run [.create .fsOpen .file (.temp 0)] |>.tick inj "open").l.1 (.temp 1) :=
+              h2.absent (fun hc => hc) (by simp)
+            have h3 := h2.create (site := .fsOpen) (kind := .file) hf1
+            have h4 := (h3.close (o := .temp 0) (g := false) rfl rfl).close (o := .temp 1) (g := false) rfl rfl
+            refine (CleanX.weaken (X := fun x => ((((False ∨ x = Owner.temp 0) ∨ x = Owner.temp 1) ∧ x ≠ Owner.temp 0) ∧ x ≠ Owner.temp 1)) ?_ ?_).ret _
+            · rw [run_cons, run_cons]; exact h4
+            · intro o ho
+              rcases ho with ⟨⟨(hx | hx) | hx, hne0⟩, hne1⟩
+              · exact hx.elim
+              · exact absurd hx hne0
+              · exact absurd hx hne1
+
+theorem clean_opFlood {s : St} (h : CleanX Z s) (hh n : Nat) : CleanX Z (opFlood s hh n) := by
+  unfold opFlood
+  split
+  · exact h.bad
+  · split
+    · exact h.bad
+    · split <;> clean_frame
 
 theorem clean_opIpcSend {s : St} (h : CleanX Z s) (f hh : Nat) (ks : List HKind) : CleanX Z (opIpcSend s f hh ks) := by
   unfold opIpcSend
@@ -1555,36 +1570,154 @@ theorem clean_step {s : St} (h : Clean s) (inj : Inj) (op : Op) : Clean (step s 
   case uvPipe => exact clean_opUvPipe h0 inj
   case uvSocketpair => exact clean_opUvSocketpair h0 inj
   case end_ => exact (h0.harmless (by simp [Prim.harmless])).ret _
-  all_goals
+  case tcpInit af =>
     split
     · exact h0.bad
     · rename_i hlo
       have hlo' : ({ s with cnt := [] } : St).loopOk = true := by simpa using hlo
-      first
-        | exact clean_opTcpInit h0 hlo' inj _
-        | exact (((h0.newH _).emfileInit (by simpa using hlo') inj)).ret _
-        | exact clean_opUdpInit h0 inj _
-        | exact clean_opTtyInit h0 hlo' inj _
-        | exact clean_opPollInit h0 _
-        | exact (h0.newH _).ret _
-        | exact clean_opFsEventStart h0 hlo' inj _
-        | exact clean_opOpen h0 _ _
-        | exact clean_opBind h0 inj _ _
-        | exact clean_opListen h0 inj _
-        | exact clean_opConnect h0 inj _ _
-        | exact clean_opAccept h0 _ _
-        | exact clean_opClose h0 _
-        | exact clean_opRun h0 hlo' inj
-        | exact clean_opFsOpen h0 inj _
-        | exact (h0.harmless (by simp [Prim.harmless])).say _
-        | exact clean_opFsClose h0 _
-        | exact clean_opFsCopyfile h0 inj _
-        | exact clean_opIpcSend h0 _ _ _
-        | exact clean_opSpawn h0 inj _ _
-        | (split <;> clean_frame)
-        | (split
-           · exact h0.bad
-           · split <;> clean_frame)
+      exact clean_opTcpInit h0 hlo' inj af
+  case pipeInit ipc =>
+    split
+    · exact h0.bad
+    · rename_i hlo
+      have hlo' : ({ s with cnt := [] } : St).loopOk = true := by simpa using hlo
+      exact ((h0.newH _).emfileInit (by simpa using hlo') inj).ret _
+  case udpInit af =>
+    split
+    · exact h0.bad
+    · rename_i hlo
+      have hlo' : ({ s with cnt := [] } : St).loopOk = true := by simpa using hlo
+      exact clean_opUdpInit h0 inj af
+  case ttyInit f =>
+    split
+    · exact h0.bad
+    · rename_i hlo
+      have hlo' : ({ s with cnt := [] } : St).loopOk = true := by simpa using hlo
+      exact clean_opTtyInit h0 hlo' inj f
+  case pollInit f =>
+    split
+    · exact h0.bad
+    · rename_i hlo
+      have hlo' : ({ s with cnt := [] } : St).loopOk = true := by simpa using hlo
+      exact clean_opPollInit h0 f
+  case asyncInit =>
+    split
+    · exact h0.bad
+    · rename_i hlo
+      have hlo' : ({ s with cnt := [] } : St).loopOk = true := by simpa using hlo
+      exact (h0.newH _).ret _
+  case signalStart =>
+    split
+    · exact h0.bad
+    · rename_i hlo
+      have hlo' : ({ s with cnt := [] } : St).loopOk = true := by simpa using hlo
+      exact (h0.newH _).ret _
+  case fsEventStart ok =>
+    split
+    · exact h0.bad
+    · rename_i hlo
+      have hlo' : ({ s with cnt := [] } : St).loopOk = true := by simpa using hlo
+      exact clean_opFsEventStart h0 hlo' inj ok
+  case open_ a b =>
+    split
+    · exact h0.bad
+    · rename_i hlo
+      have hlo' : ({ s with cnt := [] } : St).loopOk = true := by simpa using hlo
+      exact clean_opOpen h0 a b
+  case bind a v o =>
+    split
+    · exact h0.bad
+    · rename_i hlo
+      have hlo' : ({ s with cnt := [] } : St).loopOk = true := by simpa using hlo
+      exact clean_opBind h0 inj a v
+  case listen a =>
+    split
+    · exact h0.bad
+    · rename_i hlo
+      have hlo' : ({ s with cnt := [] } : St).loopOk = true := by simpa using hlo
+      exact clean_opListen h0 inj a
+  case connect a t =>
+    split
+    · exact h0.bad
+    · rename_i hlo
+      have hlo' : ({ s with cnt := [] } : St).loopOk = true := by simpa using hlo
+      exact clean_opConnect h0 inj a t
+  case accept a b =>
+    split
+    · exact h0.bad
+    · rename_i hlo
+      have hlo' : ({ s with cnt := [] } : St).loopOk = true := by simpa using hlo
+      exact clean_opAccept h0 a b
+  case close a =>
+    split
+    · exact h0.bad
+    · rename_i hlo
+      have hlo' : ({ s with cnt := [] } : St).loopOk = true := by simpa using hlo
+      exact clean_opClose h0 a
+  case run =>
+    split
+    · exact h0.bad
+    · rename_i hlo
+      have hlo' : ({ s with cnt := [] } : St).loopOk = true := by simpa using hlo
+      exact clean_opRun h0 hlo' inj
+  case fsOpen v =>
+    split
+    · exact h0.bad
+    · rename_i hlo
+      have hlo' : ({ s with cnt := [] } : St).loopOk = true := by simpa using hlo
+      exact clean_opFsOpen h0 inj v
+  case fsMkstemp =>
+    split
+    · exact h0.bad
+    · rename_i hlo
+      have hlo' : ({ s with cnt := [] } : St).loopOk = true := by simpa using hlo
+      exact (h0.harmless (by simp [Prim.harmless])).say _
+  case fsClose f =>
+    split
+    · exact h0.bad
+    · rename_i hlo
+      have hlo' : ({ s with cnt := [] } : St).loopOk = true := by simpa using hlo
+      exact clean_opFsClose h0 f
+  case fsCopyfile v =>
+    split
+    · exact h0.bad
+    · rename_i hlo
+      have hlo' : ({ s with cnt := [] } : St).loopOk = true := by simpa using hlo
+      exact clean_opFsCopyfile h0 inj v
+  case flood a n =>
+    split
+    · exact h0.bad
+    · rename_i hlo
+      have hlo' : ({ s with cnt := [] } : St).loopOk = true := by simpa using hlo
+      exact clean_opFlood h0 a n
+  case util =>
+    split
+    · exact h0.bad
+    · rename_i hlo
+      have hlo' : ({ s with cnt := [] } : St).loopOk = true := by simpa using hlo
+      exact h0.ret _
+  case ipcSend f a ks =>
+    split
+    · exact h0.bad
+    · rename_i hlo
+      have hlo' : ({ s with cnt := [] } : St).loopOk = true := by simpa using hlo
+      exact clean_opIpcSend h0 f a ks
+  case spawn ok cs =>
+    split
+    · exact h0.bad
+    · rename_i hlo
+      have hlo' : ({ s with cnt := [] } : St).loopOk = true := by simpa using hlo
+      exact clean_opSpawn h0 inj ok cs
+  case policy a b =>
+    split
+    · exact h0.bad
+    · split <;> clean_frame
+  case readStart a =>
+    split
+    · exact h0.bad
+    · split
+      · exact h0.bad
+      · split <;> clean_frame
 
 theorem clean_init : Clean ({} : St) := by
   intro o ⟨e, he, _⟩
